@@ -367,17 +367,36 @@ theorem gc_inv {st : St} (I : Inv st) : Inv (gc st) ∧ Pres st (gc st) := by
 
 /-! ### every operation -/
 
+theorem step_inv_put {st : St} (I : Inv st) (m : Msg) : Inv (put st m).1 ∧ Pres st (put st m).1 := by
+  by_cases hl : m.len ≤ dataPageSize
+  · obtain ⟨I', _, h2, h3, c, _⟩ := put_inv I m hl
+    exact ⟨I', by show _ ≤ (put st m).1.q.acked; omega, by show _ ≤ (put st m).1.q.appended; omega,
+      fun n hn _ => c n hn⟩
+  · have : (put st m).1 = st := by
+      unfold put; rw [if_pos (by omega)]
+    rw [this]; exact ⟨I, Pres.refl _⟩
+
+/-- a Put during which AcquirePage fails either changes nothing (rejected, or the roll-over
+failed) or is an ordinary Put (no roll-over was needed) -/
+theorem putF_eq (st : St) (m : Msg) :
+    (putF st m).1 =
+      if m.len > dataPageSize ∨ st.q.messageOffset + m.len > dataPageSize then st else (put st m).1 := by
+  unfold putF allocF
+  by_cases h1 : m.len > dataPageSize
+  · simp [h1]
+  · by_cases h2 : st.q.messageOffset + m.len > dataPageSize
+    · simp [h1, h2]
+    · simp [h1, h2]
+
 theorem step_inv {st : St} (I : Inv st) (op : Op) : Inv (step st op) ∧ Pres st (step st op) := by
   cases op with
-  | put m =>
-    by_cases hl : m.len ≤ dataPageSize
-    · obtain ⟨I', _, h2, h3, c, _⟩ := put_inv I m hl
-      exact ⟨I', by show _ ≤ (put st m).1.q.acked; omega, by show _ ≤ (put st m).1.q.appended; omega,
-        fun n hn _ => c n hn⟩
-    · have : step st (.put m) = st := by
-        show (put st m).1 = st
-        unfold put; rw [if_pos (by omega)]
-      rw [this]; exact ⟨I, Pres.refl _⟩
+  | put m => exact step_inv_put I m
+  | putFail m =>
+    show Inv (putF st m).1 ∧ Pres st (putF st m).1
+    rw [putF_eq]
+    split
+    · exact ⟨I, Pres.refl _⟩
+    · exact step_inv_put I m
   | get s => exact ⟨I, Pres.refl _⟩
   | ack s =>
     show Inv (ack st s) ∧ Pres st (ack st s)
